@@ -173,7 +173,8 @@ if options is not None:
 # the same check with booleans excluded from "integer" (proposed fix C02-socket-option-boolean-for-integer);
 # which of the two the code under test matches is detected by a witness at run time (variant vr_sock_int)
 SOCKET_SRC_INT = SOCKET_SRC.replace("if not isinstance(val, int):", "if not isinstance(val, int) or isinstance(val, bool):")
-assert SOCKET_SRC_INT != SOCKET_SRC
+SOCKET_SRC_INT2 = SOCKET_SRC.replace("if not isinstance(val, int):", "if isinstance(val, bool) or not isinstance(val, int):")
+assert len({SOCKET_SRC, SOCKET_SRC_INT, SOCKET_SRC_INT2}) == 3
 
 PROCESS_SRC = """try:
     self._check_at_least_one_property()
@@ -300,7 +301,7 @@ def _stmts(stmts, env):
         rest_src = "\n".join(ast.unparse(x) for x in stmts[i:])
         # special blocks recognised by exact normalised text
         matched = False
-        for src, term, n in ((SOCKET_SRC, "CSocketOptions", 2), (SOCKET_SRC_INT, "CSocketOptions", 2), (PROCESS_SRC, "CProcessExt", 1),
+        for src, term, n in ((SOCKET_SRC, "CSocketOptions", 2), (SOCKET_SRC_INT, "CSocketOptions", 2), (SOCKET_SRC_INT2, "CSocketOptions", 2), (PROCESS_SRC, "CProcessExt", 1),
                              (LEGAL_HASH_SRC, None, 1), (PATTERN20_SRC, "(CPatternValidator V20)", 2),
                              (PATTERN21_SRC, "(CPatternValidator V21)", 1),
                              (PATTERN20_SRC_GUARDED, "(CPatternValidator V20)", 2),
